@@ -379,6 +379,7 @@ Section Choice.
     pf_unp : yaml_unprintable s = false;
     pf_dec : decodes_as_non_string tok_number s = false;
     pf_uq : match s with c :: _ => mem_chr c (s_ "-+0123456789:. " ++ [c_tab]) && (use_quote s || any_octal11 s) = false | [] => True end;
+    pf_dots : is_prefix [c_dot; c_dot; c_dot] s = false;
     pf_enc : reserved_enc_keyword s = false;
     pf_isnum : tok_isnumber s = false;
     pf_dash : str_eqb s [c_minus] = false;
@@ -395,7 +396,7 @@ Section Choice.
     unfold inq, is_need_quoted in Hq. unfold shq, should_quote in Hs.
     destruct s as [|c r]; [discriminate|].
     do 7 (apply orb_false_iff in Hq; destruct Hq as [Hq ?]).
-    do 4 (apply orb_false_iff in Hs; destruct Hs as [Hs ?]).
+    do 5 (apply orb_false_iff in Hs; destruct Hs as [Hs ?]).
     constructor; auto. discriminate.
   Qed.
 
@@ -476,13 +477,13 @@ Section Choice.
       rewrite E1, E2, E3, Hs, Hf in Ei. discriminate.
   Qed.
 
-  Lemma plain_doc_marker : forall s, plain_facts s -> doc_marker s = true -> dots_marker s = true.
+  Lemma plain_doc_marker : forall s, plain_facts s -> doc_marker s = true -> False.
   Proof.
     intros s F H. pose proof (plain_no_break s F) as Hb.
     unfold doc_marker in H. destruct s as [|a [|b [|c r]]]; try discriminate.
     apply andb_true_iff in H. destruct H as [H Hw].
     apply orb_true_iff in H. destruct H as [H|H].
-    - exfalso. apply andb_true_iff in H. destruct H as [H Hc]. apply andb_true_iff in H. destruct H as [Ha Hb'].
+    - apply andb_true_iff in H. destruct H as [H Hc]. apply andb_true_iff in H. destruct H as [Ha Hb'].
       apply N.eqb_eq in Ha. apply N.eqb_eq in Hb'. apply N.eqb_eq in Hc. subst.
       destruct r as [|d r'].
       + pose proof (pf_uq _ F) as Hu. vm_compute in Hu. discriminate.
@@ -502,21 +503,21 @@ Section Choice.
         cbn [orb andb] in H3.
         unfold is_white in Hw. rewrite H3 in Hw. rewrite (N.eqb_sym d c_tab) in Hw.
         rewrite Htd, Hbd in Hw. discriminate.
-    - unfold dots_marker. rewrite H, Hw. reflexivity.
+    - pose proof (pf_dots _ F) as Hd. cbn [is_prefix] in Hd. rewrite andb_true_r in Hd.
+      apply andb_true_iff in H. destruct H as [H Hc]. apply andb_true_iff in H. destruct H as [Ha Hb'].
+      rewrite (N.eqb_sym c_dot a), (N.eqb_sym c_dot b), (N.eqb_sym c_dot c), Ha, Hb', Hc in Hd. discriminate.
   Qed.
 
-  (* a scalar the encoder leaves plain is syntactically a plain scalar, except for
-     three dots (followed by white space or nothing) in column 0 *)
+  (* a scalar the encoder leaves plain is syntactically a plain scalar *)
   Theorem plain_choice_ok : forall is_key multi col0 s,
-    choose is_key multi s = Plain ->
-    plain_ok col0 s = true \/ (col0 = true /\ dots_marker s = true).
+    choose is_key multi s = Plain -> plain_ok col0 s = true.
   Proof.
     intros is_key multi col0 s H. pose proof (plain_facts_of _ _ _ H) as F.
     pose proof (plain_no_break s F) as Hb.
     destruct (col0 && doc_marker s) eqn:Ed.
-    - right. apply andb_true_iff in Ed. destruct Ed as [-> Hd]. split; [reflexivity|].
-      apply plain_doc_marker; auto.
-    - left. unfold plain_ok. rewrite Ed, Hb. rewrite (plain_first s F).
+    - exfalso. apply andb_true_iff in Ed. destruct Ed as [_ Hd].
+      eapply plain_doc_marker; eauto.
+    - unfold plain_ok. rewrite Ed, Hb. rewrite (plain_first s F).
       rewrite (colon_white_of s (pf_scan _ F) (pf_tab _ F) Hb (pf_colon _ F)).
       rewrite (no_hash_white_hash s (nq_scan_hash s (pf_scan _ F))).
       cbn [negb andb].
@@ -607,7 +608,7 @@ Section Final.
   (* the cases in which the chosen style cannot express the string *)
   Definition style_gap (col0 : bool) (st : style) (s : str) : bool :=
     match st with
-    | Plain => col0 && dots_marker s
+    | Plain => false
     | SingleGo => negb (forallb (sq_safe is_print) s)
     | SingleCue => existsb is_break s
     | Literal => negb (literal_ok s)
@@ -622,8 +623,7 @@ Section Final.
     intros is_key multi col0 root p n s suffix Hr Hpn Hsuf Hgap.
     destruct (choose is_key multi s) eqn:Est; cbn [style_gap] in Hgap; unfold emit_doc, emit.
     - (* plain *)
-      destruct (plain_choice_ok tok_number tok_isnumber tok_timestamp is_key multi col0 s Est) as [Hok|[-> Hd]].
-      2:{ rewrite Hd in Hgap. discriminate. }
+      pose proof (plain_choice_ok tok_number tok_isnumber tok_timestamp is_key multi col0 s Est) as Hok.
       pose proof (plain_choice_resolves_str tok_number tok_isnumber tok_timestamp number_isnumber is_key multi s Est) as Hstr.
       destruct (plain_ok_parts col0 s Hok) as [Hf [_ [_ [_ [_ [_ Hdm]]]]]].
       destruct s as [|c r]; [discriminate|].
